@@ -1,6 +1,6 @@
 (* C09 - Writing never alters its input and is deterministic.
    Only statements closed by `exact`, with Print Assumptions.  Model: model/Store.v (heap), model/Iso.v (writers). *)
-From Coq Require Import List ZArith Bool.
+From Coq Require Import List ZArith Bool Permutation.
 From PV Require Import lib.Sx lib.Result model.Store model.Iso
      spec.SpecIso proofs.StoreFacts proofs.DeepcopyFacts proofs.IsoFacts proofs.RegionFacts proofs.OracleFacts
      proofs.IsoExamples.
@@ -160,6 +160,22 @@ Theorem C09_model_meets_oracle : forall c ops,
   check_hist tree tree_eqb TCut true false 0 [] [] (model_obs c world0 ops) = [].
 Proof. exact model_meets_ok_c09. Qed.
 Print Assumptions C09_model_meets_oracle.
+
+(* "no set iteration", explicit: every container the DFXP region bookkeeping iterates takes its enumeration order as a
+   parameter.  The one hash SET (_assigned_region_ids, membership tests only) may enumerate in ANY order: same document *)
+Theorem C09_regions_independent_of_set_enumeration : forall enum o t,
+  (forall l, Permutation (enum l) l) ->
+  dfxp_regions (fun l => l) enum o t = dfxp_regions (fun l => l) (fun l => l) o t.
+Proof. exact regions_independent_of_set_enumeration. Qed.
+Print Assumptions C09_regions_independent_of_set_enumeration.
+
+(* ... the container of unique layouts must NOT be a hash set: some enumeration order changes the region ids (the code
+   uses the insertion-ordered _OrderedSet; the mutant C09_orderedset_to_set makes the check fail) *)
+Theorem C09_unique_layout_order_matters_refuted :
+  exists iter codes, (forall l, Permutation (iter l) l) /\
+    region_ids iter codes <> region_ids (fun l => l) codes.
+Proof. exact regions_depend_on_unique_layout_order_refuted. Qed.
+Print Assumptions C09_unique_layout_order_matters_refuted.
 
 (* before the open_span repair the statement is false of the faithful model: witness = the replayed history *)
 Theorem C09_open_span_leak_refuted :
